@@ -108,3 +108,11 @@ func ShardFile(root, userId, colId, shardId string) string {
 func UserPlan(maxCollections int, maxPoints int64, maxPointSize int) models.UserPlan {
 	return models.UserPlan{Name: "verif", MaxCollections: maxCollections, MaxCollectionPointCount: maxPoints, MaxPointSize: maxPointSize}
 }
+
+// LoopbackHost returns a loopback address for node k that is private to this
+// process (127.a.b.k with a.b derived from the process id), so that test
+// processes running side by side never bind or dial each other's addresses.
+func LoopbackHost(k int) string {
+	pid := os.Getpid()
+	return fmt.Sprintf("127.%d.%d.%d", 1+pid%250, 1+(pid/250)%250, k)
+}
